@@ -651,3 +651,74 @@ func c14WeightsValidation(c *Ctx, evmk []*ast.File) error {
 	c.Info("relay_weights_writers", writers)
 	return nil
 }
+
+// c14MemoryState: inventory of everything a keeper reachable from the assignment keeps OUTSIDE the
+// store: every field of the keeper structs (Keeper, msgAssigner, msgSender, registry, ...) with its
+// type, and every package-level variable, of x/treasury/keeper, x/evm/keeper, x/metrix/keeper,
+// x/consensus/keeper.  The list is pinned in Coq (memory_state_is): a new field or variable - e.g. a
+// memo table that is not rolled back with a discarded store branch - is unclassified and breaks P
+// until it has been reviewed.
+func c14MemoryState(c *Ctx) error {
+	var out []string
+	for _, dir := range []string{"x/treasury/keeper", "x/evm/keeper", "x/metrix/keeper", "x/consensus/keeper"} {
+		files, err := c.ParseDir(dir)
+		if err != nil {
+			return err
+		}
+		for _, f := range files {
+			base := filepath.Base(c.Fset.Position(f.Pos()).Filename)
+			if strings.HasPrefix(base, "verif_hooks") {
+				continue
+			}
+			for _, d := range f.Decls {
+				gd, ok := d.(*ast.GenDecl)
+				if !ok {
+					continue
+				}
+				for _, sp := range gd.Specs {
+					switch x := sp.(type) {
+					case *ast.TypeSpec:
+						st, ok := x.Type.(*ast.StructType)
+						if !ok {
+							continue
+						}
+						n := x.Name.Name
+						keeperish := n == "Keeper" || n == "msgAssigner" || n == "msgSender" || n == "registry" || n == "msgServer" ||
+							strings.HasSuffix(n, "Keeper") || strings.Contains(strings.ToLower(n), "cache") || strings.Contains(strings.ToLower(n), "table")
+						if !keeperish {
+							continue
+						}
+						for _, fl := range st.Fields.List {
+							ty := strings.Join(strings.Fields(c.Src(fl.Type)), " ")
+							if len(fl.Names) == 0 {
+								out = append(out, dir+":"+n+".(embedded) "+ty)
+							}
+							for _, fn := range fl.Names {
+								out = append(out, dir+":"+n+"."+fn.Name+" "+ty)
+							}
+						}
+					case *ast.ValueSpec:
+						if gd.Tok != token.VAR {
+							continue
+						}
+						for _, nm := range x.Names {
+							if nm.Name == "_" {
+								continue
+							}
+							ty := ""
+							if x.Type != nil {
+								ty = " " + strings.Join(strings.Fields(c.Src(x.Type)), " ")
+							}
+							out = append(out, dir+":var "+nm.Name+ty)
+						}
+					}
+				}
+			}
+		}
+	}
+	sort.Strings(out)
+	c.P("(* fields of the keeper structs and package-level variables of the packages the assignment reads *)")
+	c.P("Definition memory_state : list string := %s.", CoqStrList(out))
+	c.Info("memory_state", len(out))
+	return nil
+}
